@@ -338,7 +338,10 @@ type memTransportListener struct {
 func newMemTransportListener() *memTransportListener {
 	return &memTransportListener{ch: make(chan lime.Transport, 16), done: make(chan struct{})}
 }
-func (l *memTransportListener) Listen(ctx context.Context, addr net.Addr) error { l.listen = true; return nil }
+func (l *memTransportListener) Listen(ctx context.Context, addr net.Addr) error {
+	l.listen = true
+	return nil
+}
 func (l *memTransportListener) Accept(ctx context.Context) (lime.Transport, error) {
 	select {
 	case <-ctx.Done():
